@@ -446,6 +446,8 @@ class _AugExpand(__import__('ast').NodeTransformer):
   def visit_AugAssign(self, n):
     import ast, copy
     self.generic_visit(n)
+    if isinstance(n.value, (ast.List, ast.ListComp, ast.Tuple)):
+      return n      # in-place extension of a list: not the same program
     load = copy.deepcopy(n.target)
     load.ctx = ast.Load()
     return ast.copy_location(ast.Assign(
